@@ -48,7 +48,7 @@ TINY_OPTS = [
 
 def floors(tier):
     return {"tiny": 2000000, "garbage": 3000, "items=0": 1000, "items=1": 1000, "items>=2": 500,
-            "has-d3-00-00": 1000, "short-reads": 800, "seekable": 800, "growing-source": 800, "trailing-bytes-outside-items": 1000}
+            "has-d3-00-00": 1000, "short-reads": 800, "seekable": 800, "growing-source": 800, "socket-transport": 100, "session>64KiB": 10, "trailing-bytes-outside-items": 1000}
 
 
 def plan(tier, seed):
@@ -61,6 +61,8 @@ def plan(tier, seed):
                           "alpha": list(alpha), "short": a == 0 and b == 0})
     for i in range(16):
         specs.append({"what": "garbage", "part": i})
+    for i in range(4):
+        specs.append({"what": "socket", "part": i})
     if tier == "thorough":
         for i in range(16):
             specs.append({"what": "atheris", "part": i, "corpus": "valid" if i % 4 else "empty"})
@@ -119,7 +121,47 @@ def judge(data: bytes, opts, bursts=None, seekable=False, grow=None):
     return viol, nitems, (prev_end < len(data))
 
 
+def judge_socket(data, opts, chunks, bufsize, end):
+    """The same invariant over a socket transport: positions are not observable
+    there, so every raw item must be found in the input at or after the end of the
+    previous one (non-overlapping, in order) and begin with a preamble."""
+    sock = S.ScriptedSocket(data, chunks, end)
+    viol, n = [], 0
+    try:
+        try:
+            items, exc = S.read_all(sock, dict(opts, bufsize=bufsize), _noop if opts.get("quitonerror") == 1 else None,
+                                    limit=4 * len(data) + 50)
+        except S.HarnessHang as err:
+            return [(f"{PROP}|hang", f"socket transport: {err}")], 0
+        if exc is not None:
+            return [], 0  # foreign exception: C08's clause
+        pos = 0
+        for raw, _p in items:
+            n += 1
+            j = data.find(raw, pos)
+            if j < 0:
+                where = "overlap" if data.find(raw) >= 0 else "slice-mismatch"
+                viol.append((f"{PROP}|{where}", f"socket transport: item {raw[:24].hex()} ({len(raw)} bytes) is not found in "
+                                                f"the input after offset {pos} (input {len(data)} bytes)"))
+                break
+            if S.proto_of(raw) == 0:
+                viol.append((f"{PROP}|no-preamble", f"socket transport: raw {raw[:16].hex()}"))
+                break
+            pos = j + len(raw)
+    finally:
+        sock.close()
+    return viol, n
+
+
 def check(case) -> core.Out:
+    if case.get("kind") == "socket":
+        data, opts = bytes(case["data"]), dict(case["opts"])
+        viol, n = judge_socket(data, opts, case["chunks"], case["bufsize"], case["end"])
+        out = core.Out(viol=viol, classes=["socket-transport"] + (["session>64KiB"] if len(data) > 65536 else []),
+                       dig=core.digest((data[:64], len(data), case["chunks"][:8], case["bufsize"], case["end"])))
+        out.nontrivial = True
+        out.sample = {"socket_stream_len": len(data), "items": n, "bufsize": case["bufsize"], "end": case["end"]}
+        return out
     data, opts = bytes(case["data"]) if "data" in case else streams.stream_bytes(case["items"]), dict(case["opts"])
     viol, nitems, trunc = judge(data, opts, case.get("bursts"), seekable=bool(case.get("seekable")),
                                 grow=case.get("grow"))
@@ -156,6 +198,32 @@ def run_shard(spec, ctx, acc):
     known = set(ctx["known"])
     if spec["what"] == "atheris":
         run_atheris(spec, ctx, acc)
+        return
+    if spec["what"] == "socket":
+        @st.composite
+        def sk(draw):
+            long_ = draw(st.integers(0, 1)) == 0
+            items = draw(st.one_of(streams.garbage_streams(), streams.clean_streams(1, 5)))
+            data = streams.stream_bytes(items)
+            if long_:
+                corp = streams.corpus()
+                # frames that quote another frame in their payload, > 64 KiB in total
+                body = []
+                k = draw(st.integers(0, 30))
+                while sum(len(x) for x in body) < 70000:
+                    # each frame quotes two or three complete sentences, so that any
+                    # re-served tail of a frame is likely to hold a whole one
+                    inner = b"".join(corp["nmea"][(k + j) % len(corp["nmea"])] for j in range(3))
+                    body.append(S.codec.ubx_frame(b"\x04", b"\x02", b"e%d " % k + inner))
+                    k += 1
+                data = b"".join(body) + data
+            step = draw(st.sampled_from([1, 7, 100, 1000, 4096, 65536]))
+            chunks = [draw(st.integers(1, step))] + [step] * min(len(data) // step + 2, 200)
+            return {"kind": "socket", "data": data, "opts": draw(GOPTS), "chunks": chunks,
+                    "bufsize": draw(st.sampled_from([1, 16, 4096, 65536])), "end": draw(st.sampled_from(["close", "timeout"]))}
+
+        core.hyp_search(acc, sk(), check, seed=core.derive(ctx["seed"], PROP, "sock", spec["part"]),
+                        max_examples=40 if ctx["tier"] == "quick" else 600, known=known, rounds=2, shrink=False)
         return
     if spec["what"] == "garbage":
         # a third of the streams are delivered in bursts (reads may come back short,
